@@ -106,6 +106,7 @@ type Sched struct {
 	// entry is a multiple of StickyMod).
 	Strategy  int
 	StickyMod int
+	hazard    bool
 }
 
 // Progress is bumped on every scheduler step; an external real-time watchdog
@@ -188,14 +189,35 @@ func (t *Task) Sys(req SysReq) SysResp {
 	return resp
 }
 
-// CurTask returns the task that is currently running (nil outside tasks).
-func (s *Sched) CurTask() *Task {
-	i := s.H.Cur()
-	if i < 0 || i >= len(s.Tasks) {
-		return nil
+// Me returns the task the calling goroutine belongs to (nil outside tasks).
+// Normally that is the single running task. Once a task has been seen blocked
+// on a lock, a released waiter may run beside the releasing task until its
+// next yield, so from then on the goroutine id decides.
+func (s *Sched) Me() *Task {
+	if !s.getHazard() {
+		i := s.H.Cur()
+		if i < 0 || i >= len(s.Tasks) {
+			return nil
+		}
+		return s.Tasks[i]
 	}
-	return s.Tasks[i]
+	id := curGoid()
+	for _, t := range s.Tasks {
+		if t.getGoid() == id {
+			return t
+		}
+	}
+	return nil
 }
+
+//go:norace
+func (s *Sched) getHazard() bool { return s.hazard }
+
+//go:norace
+func (s *Sched) setHazard() { s.hazard = true }
+
+//go:norace
+func (t *Task) getGoid() uint64 { return t.goid }
 
 func (s *Sched) now() int64 { return int64(time.Since(s.Start)) }
 
@@ -251,6 +273,7 @@ func (s *Sched) settle(t *Task) {
 				if t.state != stLockBlocked {
 					s.LockBlocks++
 				}
+				s.setHazard()
 				t.state = stLockBlocked
 				return
 			case clsSleep:
